@@ -5,7 +5,7 @@ import math
 from hypothesis import strategies as st
 
 from .. import gen, model
-from ..core import PropertyViolation, SubCheck
+from ..core import SubCheck
 from .c01 import check_linked_children, check_tree, make_tree, positions_for, tree_options
 
 META = dict(
@@ -36,15 +36,6 @@ META = dict(
     engines=["hypothesis-runner"],
     exhaustive_subchecks=["C06.exhaustive_ops"],
 )
-
-K_TRACK = "clear.tracked_counts_internal_samples"
-W_TRACK = "clear_tracked_counts_internal_samples"
-TRACK_KEYS = {"num_tracked"}
-
-
-def classify(case, exc):
-    return K_TRACK if getattr(exc, "what", "") == W_TRACK else None
-
 
 # ------------------------------------------------------------------ snapshot
 def snapshot(tree, sample_lists=False):
@@ -123,8 +114,15 @@ def snapshot(tree, sample_lists=False):
     return snap
 
 
+def _same(k, x, y):
+    if k == "total_branch_length" and x is not None and y is not None:
+        # a float sum whose order follows the (arbitrary) child order
+        return math.isclose(x, y, rel_tol=1e-9, abs_tol=1e-12)
+    return x == y
+
+
 def snap_diff(a, b):
-    return sorted(k for k in set(a) | set(b) if a.get(k) != b.get(k))
+    return sorted(k for k in set(a) | set(b) if not _same(k, a.get(k), b.get(k)))
 
 
 def _short(a, b, keys):
@@ -168,7 +166,8 @@ class Ref:
                       lambda: f"tree {i}: " + _short(s, self.snaps[i], d))
         ok = it.next()
         ctx.check(ok is False, "next_return", f"next() off the last tree returned {ok!r}")
-        # model facts used for the classification of the tracked-count finding
+        # trees in which a sample node has tracked samples strictly below it (label only): leaving
+        # such a tree through tsk_tree_clear must reduce that node to its own tracked count
         self.taint_at = {}
         tracked = opts["tracked"] or []
         for i in range(self.T):
@@ -237,7 +236,6 @@ class Machine:
         self.tree = make_tree(tskit, ref.ts, ref.opts)
         self.i = -1
         self.dir = None
-        self.tainted = False  # the tracked-count finding may have corrupted the counts
         self.labels = set()
         self.cands = positions_for(ref.spec)
         self.shadow = None  # (tree, index, snapshot)
@@ -246,8 +244,10 @@ class Machine:
     # ---- model helpers
     def _cleared_from(self, i):
         """tsk_tree_clear is run while the tree is on index i."""
-        if i >= 0 and self.ref.taint_at[i]:
-            self.tainted = True
+        if i >= 0:
+            self.labels.add("cleared_from_tree")
+            if self.ref.taint_at[i]:
+                self.labels.add("cleared_with_tracked_below_internal_sample")
 
     def _move(self, d, wrapped=False):
         if self.dir is not None and self.dir != d and not wrapped:
@@ -400,6 +400,8 @@ class Machine:
         else:
             raise AssertionError(f"unknown op {op}")
         self.prev_op = name
+        if self.i >= 0 and "cleared_with_tracked_below_internal_sample" in self.labels:
+            self.labels.add("tracked_internal_reentered")
         got = self.tree.index
         ctx.check(got == self.i, "index_model",
                   f"after {op} from index {prev_i}: index {got}, model {self.i}")
@@ -411,24 +413,13 @@ class Machine:
     shadow_snap = None
 
 
-def compare_state(ctx, m, tree, i, what, deferred=None):
-    """snapshot(tree) against the fresh tree at index i.  Returns the snapshot.  One finding class
-    is recognised narrowly (what=W_TRACK): ONLY tracked counts differ, and tsk_tree_clear has run
-    on a tree in which a sample node had tracked samples strictly below it.  With `deferred` (a
-    dict) that class is recorded there instead of raised, so that an enumeration can go on."""
-    ref = m.ref
-    s = snapshot(tree, ref.opts["sample_lists"])
-    exp = ref.snaps[i]
-    d = set(snap_diff(s, exp))
-    if not d:
-        return s
-    if d <= TRACK_KEYS and m.tainted:
-        msg = f"{what}: " + _short(s, exp, sorted(d))
-        if deferred is None:
-            raise PropertyViolation(W_TRACK, msg)
-        deferred.setdefault(W_TRACK, msg)
-        return s
-    ctx.check(False, "state_vs_fresh_tree", lambda: f"{what}: " + _short(s, exp, sorted(d)))
+def compare_state(ctx, m, tree, i, what):
+    """snapshot(tree) must equal the snapshot of the fresh tree at index i.  Returns the snapshot."""
+    s = snapshot(tree, m.ref.opts["sample_lists"])
+    exp = m.ref.snaps[i]
+    d = snap_diff(s, exp)
+    ctx.check(not d, "state_vs_fresh_tree", lambda: f"{what}: " + _short(s, exp, d))
+    return s
 
 
 def run_history_ops(ctx, tskit, spec, ts, opts, ops, deep_every=1):
@@ -482,12 +473,70 @@ def op_strategy():
     )
 
 
+def phrase_strategy():
+    """One operation, or a short pattern that is rare under independent draws."""
+    one = op_strategy().map(lambda o: [o])
+    k = st.integers(0, 95)
+    fixed = st.sampled_from([
+            [["clear"], ["prev"]], [["clear"], ["prev"], ["next"]],
+            [["clear"], ["prev"]], [["clear"], ["next"]], [["clear"], ["clear"]],
+            [["last"], ["next"], ["next"]], [["first"], ["prev"], ["prev"]],
+            [["prev"], ["next"]], [["next"], ["prev"]], [["prev"], ["prev"], ["next"], ["next"]],
+            [["next"], ["next"], ["prev"], ["prev"]], [["first"], ["first"]], [["last"], ["last"]],
+            [["copy", 0], ["next"]], [["copy", 0], ["prev"]], [["copy", 1], ["next"]],
+    ])
+    pats = st.one_of(
+        st.builds(lambda a, mv: [["clear"], ["seek", a], [mv]], k, st.sampled_from(["next", "prev"])),
+        st.builds(lambda a, mv: [["clear"], ["seek_index", a], [mv]], k, st.sampled_from(["next", "prev"])),
+        st.builds(lambda a, b: [["seek", a], ["seek", b]], k, k),
+        st.builds(lambda a, w, mv: [["seek", a], ["copy", w], [mv]], k, st.integers(0, 1),
+                  st.sampled_from(["next", "prev"])),
+    )
+    return st.one_of(one, one, one, fixed, pats)
+
+
+def spec_strategy(max_nodes, max_intervals, max_sites, max_muts):
+    """gen.ts_spec, mostly restricted to >=2 trees (and often >=3)."""
+    def base(discrete):
+        return gen.ts_spec(max_nodes=max_nodes, max_intervals=max_intervals, max_sites=max_sites,
+                           max_muts_per_site=max_muts, migrations=False, metadata=False, individuals=False,
+                           populations=False, discrete=discrete, min_nodes=2)
+
+    def ntrees(s):
+        return len(model.breakpoints(s)) - 1
+
+    return st.one_of(
+        base(None),
+        base(False).filter(lambda s: ntrees(s) >= 2),
+        base(False).filter(lambda s: ntrees(s) >= 3),
+        base(True).filter(lambda s: ntrees(s) >= 2),
+        base(True).filter(lambda s: ntrees(s) >= 3),
+        base(False).filter(lambda s: ntrees(s) >= 4),
+    )
+
+
+def options_for(draw, spec):
+    """c01.tree_options, with sample lists and tracked samples (in particular ALL samples, so that
+    internal sample nodes have tracked samples below them) made more frequent."""
+    opts = tree_options(draw, spec)
+    smp = model.samples(spec)
+    mode = draw(st.integers(0, 4))
+    if smp and mode == 0:
+        opts["tracked"] = list(smp)
+    elif smp and mode == 1:
+        opts["tracked"] = sorted(draw(st.sets(st.sampled_from(smp), min_size=1)))
+    if draw(st.integers(0, 3)) == 0:
+        opts["sample_lists"] = True
+    return opts
+
+
 @st.composite
 def history_case(draw):
-    spec = draw(gen.ts_spec(max_nodes=8, max_intervals=6, max_sites=4, max_muts_per_site=2,
-                            migrations=False, metadata=False, individuals=False, populations=False))
-    opts = tree_options(draw, spec)
-    ops = draw(st.lists(op_strategy(), min_size=1, max_size=40))
+    spec = draw(spec_strategy(8, 6, 4, 2))
+    opts = options_for(draw, spec)
+    n = draw(st.sampled_from([2, 4, 8, 12, 20, 30, 40]))
+    phrases = draw(st.lists(phrase_strategy(), min_size=max(1, n // 2), max_size=n))
+    ops = [o for ph in phrases for o in ph][:40]
     return dict(spec=spec, opts=opts, ops=ops)
 
 
@@ -517,10 +566,8 @@ def run_history(case, ctx):
 # ------------------------------------------------------------------ sub-check: exhaustive sequences
 @st.composite
 def exhaustive_case(draw):
-    spec = draw(gen.ts_spec(max_nodes=6, max_intervals=4, max_sites=3, max_muts_per_site=1,
-                            migrations=False, metadata=False, individuals=False, populations=False,
-                            extra_flags=False))
-    return dict(spec=spec, opts=tree_options(draw, spec))
+    spec = draw(spec_strategy(6, 4, 3, 1))
+    return dict(spec=spec, opts=options_for(draw, spec))
 
 
 def alphabet(T, cands_mid):
@@ -551,7 +598,6 @@ def run_exhaustive(case, ctx):
         x = (ref.bps[j] + ref.bps[j + 1]) / 2
         mids.append(cands.index(x))
     alpha = alphabet(T, mids)
-    deferred = {}
     nseq = 0
     for n in range(1, depth + 1):
         for seq in itertools.product(alpha, repeat=n):
@@ -563,10 +609,8 @@ def run_exhaustive(case, ctx):
                 if op[0] == "copy":
                     ctx.check(m.tree.index == m.shadow.index, "copy", "index of the copy")
             nseq += 1
-            compare_state(ctx, m, m.tree, m.i, f"sequence {list(seq)} -> index {m.i}", deferred)
+            compare_state(ctx, m, m.tree, m.i, f"sequence {list(seq)} -> index {m.i}")
     ctx.notes["sequences"] = nseq
-    if W_TRACK in deferred:
-        raise PropertyViolation(W_TRACK, deferred[W_TRACK])
 
 
 NT_H = ("tree sequence has >=2 trees and the history contains a direction reversal (next/seek forward "
@@ -575,23 +619,13 @@ NT_H = ("tree sequence has >=2 trees and the history contains a direction revers
         "followed by prev, or a seek that wraps around through the null state, or navigation "
         "continued on a copy")
 SUBCHECKS = [
-    SubCheck("C06.histories", run_history, strategy=history_case, quick=1200, thorough=36000, rule=NT_H,
-             classify=classify,
+    SubCheck("C06.histories", run_history, strategy=history_case, quick=8000, thorough=120000, rule=NT_H,
              floors={"multi_tree": 0.3, "reversal": 0.2, "seek_null_right": 0.05, "seek_null_left": 0.05,
                      "seek_current": 0.1, "clear_prev": 0.02, "seek_wrap": 0.03, "continue_on_copy": 0.1,
                      "next_to_null": 0.1, "prev_to_null": 0.1, "bad_seek": 0.1, "sample_lists": 0.2,
                      "tracked": 0.1, "internal_sample": 0.1, "mutations": 0.2}),
-    SubCheck("C06.exhaustive_ops", run_exhaustive, strategy=exhaustive_case, quick=200, thorough=2000,
+    SubCheck("C06.exhaustive_ops", run_exhaustive, strategy=exhaustive_case, quick=1000, thorough=2500,
              rule="tree sequence with >=2 trees; every operation sequence of length <=3 (quick) / <=4 "
                   "(thorough) over the alphabet is executed on a new Tree and its final state compared",
-             classify=classify, floors={"multi_tree": 0.3, "T=4": 0.03}),
+             floors={"multi_tree": 0.3, "T=4": 0.03}),
 ]
-
-# minimal reproducer of the tracked-count finding: sample 1 is the parent of tracked sample 0;
-# first(); first() counts sample 0 twice below node 1.
-_PROBE_SPEC = dict(L=2.0, nodes=[[1, 0.0, -1, -1, ""], [1, 1.0, -1, -1, ""]], edges=[[0.0, 2.0, 1, 0, ""]],
-                   sites=[], mutations=[], individuals=[], populations=[], migrations=[])
-PROBES = {
-    K_TRACK: ("C06.histories", dict(spec=_PROBE_SPEC, opts=dict(sample_lists=False, root_threshold=1, tracked=[0]),
-                                    ops=[["first"], ["first"]])),
-}
